@@ -43,6 +43,9 @@ static unsigned char *mutate(const pkt_t *p,const char *mut,long *bytes,link_t *
   else if(mut&&!strcmp(mut,"m=hdr")){ free(b); n=L->pk[0].bytes; b=malloc(n+16); memcpy(b,L->pk[0].data,n); }
   *bytes=n; return b;
 }
+#ifdef XIPH_VORBIS_VERIF
+extern int *vorbis_verif_fit, vorbis_verif_nfit, *vorbis_verif_ybuf, vorbis_verif_ylen;   /* probes in lib/floor1.c */
+#endif
 static long g_packed_bits;
 static unsigned char *pack_fields(char **tok,int from,int nt,long *bytes){
   oggpack_buffer o; oggpack_writeinit(&o); g_packed_bits=0;
@@ -121,9 +124,20 @@ static void cmd(char **tok,int nt){
     if(rnd){ rng_t r; r.s=(uint64_t)atol(tok[3])*7919+1; nb=atol(tok[4]); if(nb<1)nb=1; b=malloc(nb+16); for(long i=0;i<nb;i++) b[i]=(unsigned char)rng_u32(&r); b[0]&=0xFE; memset(b+nb,0,16); W=0; gp=atoll(tok[5]); }
     else { W=atoi(tok[3]); gp=atoll(tok[4]); eos=atoi(tok[5]); nosil=(nt>6&&!strcmp(tok[6],"ns")); b=pack_fields(tok,6,nt,&nb); }
     ogg_packet op; memset(&op,0,sizeof op); op.packet=b; op.bytes=nb; op.packetno=3+k; op.granulepos=gp; op.e_o_s=eos;
+    const char *fx=find_opt(tok,nt,"fx="), *yx=find_opt(tok,nt,"yx=");
+    static int fitbuf[80], ybuf[8192]; int nfit=-1, ny=0;
+#ifdef XIPH_VORBIS_VERIF
+    if(fx||yx){ for(int i=0;i<8192;i++) ybuf[i]=-1; vorbis_verif_fit=fitbuf; vorbis_verif_nfit=80; vorbis_verif_ybuf=ybuf; vorbis_verif_ylen=8192; }
+#endif
     int rs=vorbis_synthesis(&x->vb,&op); long used=oggpack_bits(&x->vb.opb); int rW=x->vb.W; int rb=-9999; if(rs==0) rb=vorbis_synthesis_blockin(&x->vd,&x->vb); free(b);
+#ifdef XIPH_VORBIS_VERIF
+    if(fx||yx){ nfit=vorbis_verif_nfit; if(nfit>80) nfit=-1; ny=(x->s_vi==1&&x->vi.codec_setup)?(int)(vorbis_info_blocksize(&x->vi,rs==0?rW:W)/2):0; vorbis_verif_fit=0; vorbis_verif_ybuf=0; }
+#endif
     ev_begin("Synthesis"); ev_i("d",di); ev_i("k",k); ev_i("mut",rnd); ev_i("W",rs==0?rW:W); ev_i("cW",rnd?(rs==0?rW:W):W); ev_i("no",op.packetno); ev_i("gp",op.granulepos); ev_i("eos",op.e_o_s); ev_i("bytes",nb);
-    ev_i("rs",rs); ev_i("used",used); ev_i("rb",rb); ev_i("gpf",0); ev_i("syn",1); ev_i("xused",rnd?-1:g_packed_bits); ev_dst(x); ev_end();
+    ev_i("rs",rs); ev_i("used",used); ev_i("rb",rb); ev_i("gpf",0); ev_i("syn",1); ev_i("xused",rnd?-1:g_packed_bits);
+    if(fx&&nfit>=0){ ev_arr_begin("fit"); for(int i=0;i<nfit;i++) ev_arr_i(fitbuf[i]); ev_arr_end(); ev_arr_begin("xfit"); for(const char *q=fx;*q;){ ev_arr_i(strtol(q,(char**)&q,10)); if(*q==',')q++; } ev_arr_end(); }
+    if(yx&&ny>0){ ev_arr_begin("yc"); for(int i=0;i<ny;i++) ev_arr_i(ybuf[i]); ev_arr_end(); ev_arr_begin("xyc"); for(const char *q=yx;*q;){ ev_arr_i(strtol(q,(char**)&q,10)); if(*q==',')q++; } ev_arr_end(); }
+    ev_dst(x); ev_end();
     if(rs==0&&rb==0){ x->lastk=k; }
     /* hand the samples out: a silent spectrum must give exact silence */
     float **pcm=NULL; int n=vorbis_synthesis_pcmout(&x->vd,&pcm); int zero=1; if(n>0) for(int ch=0;ch<x->vi.channels&&zero;ch++) for(int i=0;i<n;i++) if(pcm[ch][i]!=0.0f){ zero=0; break; }
